@@ -104,7 +104,9 @@ var httpQueries = []string{`{ me { firstName } }`, `{ me { firstName lastName } 
 	`query V($n: String!) { __type(name: $n) { name kind } }`, `query V($id: ID!) { node(id: $id) { id } }`,
 	`query V($id: ID!, $s: Boolean!) { user(id: $id) { firstName lastName @include(if: $s) } }`,
 	`query V($s: Boolean = true, $n: String) { __schema { queryType { name } } __type(name: $n) { name } me { firstName lastName @skip(if: $s) } }`,
-	`{ __type(name: "User") { name fields { name } } __schema { types { name } } }`}
+	`{ __type(name: "User") { name fields { name } } __schema { types { name } } }`,
+	// text that comes back in the response (echoed by error messages, or as data) and means something to a formatter
+	`{ me { firstName(discount: "50%") } }`, `{ user(id: "100%d %s %v") { firstName } }`, `query P { me { nick%s } }`}
 
 var httpVariables = []interface{}{map[string]interface{}{"n": "User"}, map[string]interface{}{"n": nil}, map[string]interface{}{"id": "u1", "s": true},
 	map[string]interface{}{"id": 5}, map[string]interface{}{"s": "x", "n": 7}, map[string]interface{}{"id": "u2"}, map[string]interface{}{}, nil,
@@ -140,7 +142,7 @@ func genOperation(r *rand.Rand) interface{} {
 		op[key("variables")] = genJSONValue(r, 2)
 	}
 	if r.Intn(4) == 0 {
-		op[key("operationName")] = []interface{}{"A", "B", "", "Zzz", 7, nil}[r.Intn(6)]
+		op[key("operationName")] = []interface{}{"A", "B", "", "Zzz", 7, nil, "100%", "%d%s%!"}[r.Intn(8)]
 	}
 	if r.Intn(6) == 0 {
 		op[key("extensions")] = []interface{}{map[string]interface{}{"persistedQuery": map[string]interface{}{"version": 1, "sha256Hash": "deadbeef"}}, map[string]interface{}{"persistedQuery": nil}, nil, 5, map[string]interface{}{"persistedQuery": map[string]interface{}{"sha256Hash": 9}}}[r.Intn(5)]
@@ -162,7 +164,7 @@ func genHTTPCase(r *rand.Rand) HTTPCase {
 			v.Set("variables", []string{`{"a":1}`, `[1]`, `null`, `{`, `"x"`, `true`, `{}`, `{"n":"User"}`, `{"id":"u1","s":false}`, `{"id":5,"n":null}`}[r.Intn(10)])
 		}
 		if r.Intn(4) == 0 {
-			v.Set("operationName", []string{"A", "B", "Zzz", ""}[r.Intn(4)])
+			v.Set("operationName", []string{"A", "B", "Zzz", "", "100%"}[r.Intn(5)])
 		}
 		if r.Intn(3) == 0 {
 			v.Set("extensions", []string{`{"persistedQuery":{"version":1,"sha256Hash":"deadbeef"}}`, `null`, `{`, `5`, `{"persistedQuery":null}`, `{}`}[r.Intn(6)])
